@@ -1,7 +1,7 @@
 """C05 -- PMux feeds from exactly the first live input, and is reported so.
 Engine E1-mux: muxes with 1..k inputs x every input kind (own source / own source+converter / switch off a shared source)
 x every live/dead cause per input (0 V source, phase-inactive source, phase-inactive regulator/switch upstream) x scalar or per-input rs
-x rails on/off x attachment by name or by rail x the mux itself active in one phase only; two phases so that every case shows two live/dead patterns; plus every 2-/3-input system again after the intermediate element of one input was deleted with del_childs=False (the feeder takes its place in the priority list)."""
+x rails on/off x attachment by name or by rail x the mux itself active in one phase only; two phases so that every case shows two live/dead patterns; plus every 2-/3-input system again after the intermediate element of one input was deleted with del_childs=False (the feeder takes its place in the priority list), and with every priority order different from the creation order after a save() / from_file() round trip."""
 import itertools
 from ..common import Run, Res, seed
 from ..sysmodel import resolve, g
@@ -30,7 +30,30 @@ def spec_without(spec, name):
 def check_case(case):
     res = Res()
     inputs = [tuple(x) for x in case["inputs"]]
-    spec = mux_spec(inputs, case["pal"], case["rs_list"], case["rails"], case["by_rail"], pol=case.get("pol", 1), mux_pc=case.get("mux_pc"))
+    spec = mux_spec(inputs, case["pal"], case["rs_list"], case["rails"], case["by_rail"], pol=case.get("pol", 1), mux_pc=case.get("mux_pc"), order=case.get("order"))
+    if case.get("reload"):
+        # the declared priority order (different from the creation order) must survive save() / from_file()
+        from ..sysmodel import build, observe
+        from ..common import quiet_call, workdir
+        from sysloss.system import System
+        import os
+        s = build(spec)
+        path = os.path.join(workdir("c05"), "m.json")
+        s.save(path)
+        s2, _ = quiet_call(System.from_file, path)
+        try:
+            df, _ = quiet_call(s2.solve)
+        except (RuntimeError, ValueError):
+            res.classes.add("reloaded-unsolvable")
+            return res
+        obs = observe(df)
+        d = resolve(spec)
+        for ph in spec["phases"]:
+            phys.check_phase(res, spec, obs, ph, 25.0, ("C05", "C01", "C04"), d)
+        res.viol = [(("C05.after-reload",) + sig, det) for sig, det in res.viol]
+        res.nontrivial = 1
+        res.classes.add("reloaded")
+        return res
     if case.get("delete") is not None:
         # edit history: the intermediate element of one input is deleted with del_childs=False; the declared priority order must survive
         from ..sysmodel import build, observe
@@ -103,6 +126,9 @@ def gen_edits(tier, pal):
                 if t in ("SC", "SH", "SL"):
                     victim = {"SC": "C%d", "SH": "P%d", "SL": "G%d"}[t] % j
                     yield dict(inputs=[list(x) for x in inputs], pal=pal, rs_list=True, rails=False, by_rail=False, pol=1, delete=victim)
+            for order in itertools.permutations(range(k)):
+                if list(order) != list(range(k)):
+                    yield dict(inputs=[list(x) for x in inputs], pal=pal, rs_list=True, rails=False, by_rail=False, pol=1, order=list(order), reload=True)
 
 
 def replay(doc):
